@@ -18,6 +18,10 @@ CHECKS = {
    text='Coq theorems (Properties_C03.v): for every length and limb content the models of mpn_add_n/sub_n/add_1/sub_1/add/sub/neg_n/com_n/lshift/rshift/cmp/zero_p/zero equal the exact integer function incl. returned carry/borrow/shifted-out bits; the C loops over a shared memory give the same result for every permitted overlap; the mpz_add/sub/add_ui/sub_ui/ui_sub/neg/abs/mul_2exp/set/swap models return the exact signed value and a well-formed object. The models are tied to /repo by running the extracted model and the freshly built library on the same generated cases.',
    note='Trusted: Coq kernel, extraction (ExtrOcamlBasic), OCaml/C drivers, generators. Modelled, not verified: the C source itself (tied by execution); assembly kernels add_err*/sub_err* are outside (C14).',
    design='6/C03'),
+ 'C04': dict(
+   text='Coq theorems (Properties_C04.v) about the allocation state machine of mpz variables (init, init2, clear, realloc2, _mpz_realloc, set, set_ui, neg, abs, swap, add, sub, add_ui, sub_ui, mul_2exp, mul incl. its free-then-allocate and allocate-then-free aliased paths): for EVERY finite operation sequence every variable stays well formed (the allocation each function requests suffices for the value it stores), every reallocate/free event carries exactly the current size of a live block, the bytes held equal the net of the event trace so that clearing every variable leaves no block, and values are independent of the allocation history (any realloc2 that keeps the value representable is neutral). Tie to the code: 3000 random histories per run whose per-variable (alloc, value) and exact allocator event trace are compared with the model; 3000 histories over all 122 functions of the regenerated prototype table plus limbs_write/finish, string input of arbitrary bytes (incl. 70 000-character strings with an invalid byte), raw I/O of arbitrary and truncated byte streams, gmp_asprintf at digit counts around powers of two, under the recording allocator (exact-size check, red zones, always-moving poisoning realloc, live-block accounting) and replayed with every destination pre-shrunk and pre-grown. This check found that mpz_inp_raw leaves a malformed variable on a truncated stream (fixed in /repo 8f152ba).',
+   note='Functions outside the modelled set F are covered by runtime monitoring only (histA), not by a theorem; reads/writes inside mpn routines are visible only through red zones and poisoning; C-level UB is outside. TMP (alloca/heap) blocks are not modelled: histories keep operands below the 65536-byte TMP switch except the long-string cases. Trusted: harness/ops_hist.c, the recording allocator in harness/drv.c, translator/gen_protos.py.',
+   design='6/C04'),
  'C05': dict(
    text='Coq theorems (Properties_C05.v): in the variable-store semantics of a call (same variable = same key) the output holds the function of the INITIAL input values whatever subset of inputs it coincides with and every non-output variable keeps its value (one and two outputs, the latter under the manual\'s q <> r restriction); the mpn add_n/sub_n/copyi/copyd/lshift/rshift C loops on one shared memory compute the pure function for every overlap the manual permits. Tie to the code: the prototype table is regenerated from gmp-h.in and EVERY permitted alias partition of the object arguments of all 122 mpz/mpq/mpf functions (377 partitions) is run: distinct variables vs the aliased arrangement on equal values under an always-moving, poisoning allocator with minimal destination allocation; every argument, return value and format rule is compared.',
    note='The store theorems are a specification of aliasing, not a pointer-level model of each C function: for mpz/mpq/mpf functions the property is decided by exhaustive enumeration of alias partitions on the implementation (values are sampled per partition). Functions with string/FILE/random-state/raw-pointer arguments are outside this harness. Trusted: translator/gen_protos.py, harness/ops_alias.c.',
